@@ -236,6 +236,15 @@ def write_evidence(prop, tier, seed, t0, results, kobs, vunits, meta, known, vio
     discharged = [i for i in ids if results[i]["status"] == "discharged"]
     proved = [i for i in discharged if results[i].get("kind") != "K-bounded"]
     level = "proof" if not bounded else "other"
+    # the level reported is the one claimed in MANIFEST.json (never stronger than what was run:
+    # a claim of `proof` is downgraded to `other` if a bounded stand-in took part)
+    try:
+        man = load_json(os.path.join(VERIF, "MANIFEST.json"), {})
+        claimed = [c["level_claimed"]["category"] for c in man.get("checks", []) if c["property_id"] == prop]
+        if claimed:
+            level = claimed[0] if not (claimed[0] == "proof" and bounded) else "other"
+    except Exception:
+        pass
     samples = []
     for i in ids[:400]:
         r = results[i]
